@@ -230,7 +230,11 @@ func (o unifyOut) Sx() Sx {
 
 func c17Pair(r *Run, x, y *T, init map[string]*T) {
 	r.Mark(fmt.Sprintf("types.Equals / types.Unify on %s ~ %s", x, y))
-	gx, gy := x.Go(), y.Go()
+	var gx, gy *types.Type
+	if pan, _ := protect(func() { gx, gy = x.Go(), y.Go() }); pan {
+		r.Count("pair:not-buildable(skipped)") // the constructors of package types refuse it (e.g. a key that is not keyable)
+		return
+	}
 	// --- equality: correspondence + laws
 	eq := types.Equals(gx, gy)
 	r.Case(L(A("tyeq"), TySx(gx), TySx(gy)), Bool(eq))
@@ -538,8 +542,11 @@ func runC17(r *Run) {
 		c17Pair(r, x, y, init)
 		if i%4 == 0 {
 			// transitivity of equality on a triple of related types
-			z := g.mutate(y)
-			gx, gy, gz := x.Go(), y.Go(), z.Go()
+			z := fixKeys(g.mutate(y))
+			var gx, gy, gz *types.Type
+			if pan, _ := protect(func() { gx, gy, gz = x.Go(), y.Go(), z.Go() }); pan {
+				continue
+			}
 			if types.Equals(gx, gy) && types.Equals(gy, gz) && !types.Equals(gx, gz) {
 				r.Violate("eq-trans", fmt.Sprintf("%s, %s, %s", x, y, z), "Equals not transitive")
 			}
@@ -749,8 +756,12 @@ func twoSidedPairs(seed int64, tier string) [][2]*T {
 func c17Screen(seed int64, tier string, start int, prog string) {
 	debug.SetMaxStack(32 << 20)
 	pairs := twoSidedPairs(seed, tier)
+	pf, err := os.Create(prog)
+	if err != nil {
+		os.Exit(4)
+	}
 	for i := start; i < len(pairs); i++ {
-		os.WriteFile(prog, []byte(fmt.Sprint(i)), 0o644)
+		pf.WriteAt([]byte(fmt.Sprintf("%-12d", i)), 0)
 		gx, gy := pairs[i][0].Go(), pairs[i][1].Go()
 		m := map[string]*types.Type{}
 		out := implUnify(gx, gy, m)
